@@ -19,7 +19,7 @@ impl Scenario for C08 {
         "Seeded lifecycle sessions ended (a) by the client closing the connection while 1-3 worker threads are mid-RPC, mid-publish or hold consumers (join after close), with write stalls/short writes so that data is still queued, the broker answering CloseOk followed by EOF in the same segment or a little later; or (b) by the server sending Connection.Close(code,text) at a random time, waiting for CloseOk, then EOF. Oracle (a): the last frame ever written is Connection.Close(200,\"goodbye\",0,0); close() = Ok; each channel's first failing call = ClientClosedConnection; consumers still attached end with ClientClosedConnection. (b): the last frame written is Connection.CloseOk; close() = ServerClosedConnection{code,text}; each channel's first failing call and every attached consumer carry that error. Both: per channel the frames on the wire are a prefix of the frames issued (nothing in the middle is lost, nothing after the close point is written), no hang, no panic. Runs in which both sides close at once are only checked for hang/panic. Non-trivial = at least one worker call or consumer was still active when the close happened (a channel saw the close error or a consumer got the close terminal); distinct = schedule trace hash.".to_string()
     }
     fn plan(&self, thorough: bool, seed: u64) -> Vec<CaseSpec> {
-        plan_random("C08", "close", seed, if thorough { 100_000 } else { 5_000 })
+        plan_random("C08", "close", seed, if thorough { 200_000 } else { 10_000 })
     }
     fn run_case(&self, spec: &CaseSpec, text: bool) -> CaseReport {
         let mut cs = spec.stream();
